@@ -237,6 +237,8 @@ func run(id, tier string) int {
 	seenKnown := map[string]bool{}
 	reported := map[string]bool{}
 	historyDependent := map[string]int{}
+	shardRerun := map[int][]map[string]bool{}
+	alsoSeen := 0
 	unconfirmed := 0
 	nviol := 0
 	os.MkdirAll(replayDir(), 0o755)
@@ -254,6 +256,12 @@ func run(id, tier string) int {
 			continue
 		}
 		reported[v.Finding] = true
+		if nviol >= maxConfirmed {
+			// enough confirmed violations to fail the run: further distinct findings are listed, not separately confirmed or reported
+			alsoSeen++
+			fmt.Printf("ALSO-SEEN property=%s finding=%s cases=%d first=%s (not separately confirmed)\n", id, v.Finding, total.ViolCount[v.Finding], v.Case)
+			continue
+		}
 		if v.Finding == "panic@unknown" {
 			// a panic whose stack holds no frame of the library is the harness's own: never reported as a property violation
 			fmt.Fprintf(os.Stderr, "HARNESS-ERROR: case %q panicked outside the library:\n%s\n", v.Case, tail(v.Detail, 1500))
@@ -281,15 +289,21 @@ func run(id, tier string) int {
 				sh, known := shardOf[v.Finding+"|"+v.Case]
 				hist := 0
 				if known {
-					for r := 0; r < 2; r++ {
-						o := spawn(id, tier, sh, n, dir, "")
-						if o.res != nil {
-							for _, vv := range o.res.Violations {
-								if vv.Finding == v.Finding {
-									hist++
-									break
+					// one pair of re-runs per worker share, whatever the number of findings that came out of it
+					if _, done := shardRerun[sh]; !done {
+						for r := 0; r < 2; r++ {
+							set := map[string]bool{}
+							if o := spawn(id, tier, sh, n, dir, ""); o.res != nil {
+								for _, vv := range o.res.Violations {
+									set[vv.Finding] = true
 								}
 							}
+							shardRerun[sh] = append(shardRerun[sh], set)
+						}
+					}
+					for _, set := range shardRerun[sh] {
+						if set[v.Finding] {
+							hist++
 						}
 					}
 				}
@@ -370,6 +384,9 @@ func run(id, tier string) int {
 	}
 	return exit
 }
+
+// maxConfirmed is the number of distinct findings confirmed and reported as VIOLATION lines in one run; the rest are listed as ALSO-SEEN.
+const maxConfirmed = 8
 
 func replay(path string) int {
 	b, err := os.ReadFile(path)
